@@ -80,10 +80,15 @@ S12_HOLES = {"g0": ["a", "b"], "l0": ["a", "b"], "p1": ["c", "b"], "mb": ["pass"
 S13 = ("{g0} = [1, 2]\n{g1} = 3\n\n\nclass K:\n    {k0} = [4, 5]\n    {k1} = 6\n    d = [w * {u1} for w in {u0}]\n    e = sum(w for w in {u0} if w)\n\n    def m(self):\n        return [w for w in self.{k0}]\n\n\n"
        "print(K.d, K.e, K().m(), {g0}, {g1})\n")
 S13_HOLES = {"g0": ["a", "b"], "g1": ["b", "c"], "k0": ["a", "b"], "k1": ["b", "c"], "u0": ["a", "b"], "u1": ["b", "c"]}
+# a parameter that the body rebinds with a nested def / class / import of the same name (the default-callback idiom)
+S14 = ("{g0} = 'g'\n\n\ndef run(v, {p0}=None):\n    if {p0} is None:\n        {rb}\n    return {p0}(v)\n\n\n"
+       "print(run(1), run(2, {p0}=str), {g0})\n")
+S14_HOLES = {"g0": ["a", "c"], "p0": ["a", "b"],
+             "rb": ["def {p0}(x):\n            return x + 1", "class {p0}(int):\n            pass", "from operator import neg as {p0}"]}
 # S2 indented with tabs
 S2T = S2.replace("        ", "\t\t").replace("    ", "\t")
 
-SCHEMAS = {"S2T": (S2T, S2_HOLES), "S13": (S13, S13_HOLES), "S12": (S12, S12_HOLES), "S11": (S11, S11_HOLES), "S10": (S10, S10_HOLES), "S9": (S9, S9_HOLES), "S8": (S8, S8_HOLES), "S6": (S6, S6_HOLES), "S7": (S7, S7_HOLES), "S1": (S1, S1_HOLES), "S2": (S2, S2_HOLES), "S3A": (S3A, S3A_HOLES), "S3B": (S3B, S3B_HOLES), "S3C": (S3C, S3C_HOLES),
+SCHEMAS = {"S14": (S14, S14_HOLES), "S2T": (S2T, S2_HOLES), "S13": (S13, S13_HOLES), "S12": (S12, S12_HOLES), "S11": (S11, S11_HOLES), "S10": (S10, S10_HOLES), "S9": (S9, S9_HOLES), "S8": (S8, S8_HOLES), "S6": (S6, S6_HOLES), "S7": (S7, S7_HOLES), "S1": (S1, S1_HOLES), "S2": (S2, S2_HOLES), "S3A": (S3A, S3A_HOLES), "S3B": (S3B, S3B_HOLES), "S3C": (S3C, S3C_HOLES),
            "S3D": (S3D, S3D_HOLES), "S3E": (S3E, S3E_HOLES), "S4": (S4, S4_HOLES), "S5": (S5, S5_HOLES)}
 
 
